@@ -169,7 +169,7 @@ func c08Run(c *core.Ctx) {
 	}
 
 	// --- layout axis: every whitespace choice in every gap of small documents
-	ws := []string{"", " ", "\n", "\t", "\r\n", "  "}
+	ws := []string{"", " ", "\n", "\t", "\r\n", "\r"}
 	small := [][]string{
 		{"[", "]"}, {"{", "}"}, {"[", "1", "]"}, {"[", `"a"`, ",", "true", "]"},
 		{"{", `"k"`, ":", "1", "}"}, {"[", "[", "]", "]"}, {"[", "{", "}", "]"},
